@@ -381,9 +381,10 @@ def parse_fn_block(lines, i, tname=''):
 
 
 class Gen:
-    def __init__(self, repo, unit, tmpl_path):
+    def __init__(self, repo, unit, tmpl_path, vacuity=False):
         self.repo = repo
         self.unit = unit
+        self.vacuity = vacuity      # thorough tier: put `assert(false)` at the entry of every function under contract
         self.tmpl = Template(tmpl_path)
         self.out = []       # list of (text_line, origin)
         self.files = {}
@@ -651,6 +652,10 @@ class Gen:
             self.ledger.append(dict(fn=fnname, label=fnname + '.run_rel', kind='ensures', props=props,
                                     text='trait postcondition: run satisfies this command\'s run_rel (its effect on variables / state / result as specified)',
                                     tmpl_line=spec['tmpl_line'] + '#run_rel'))
+        if self.vacuity and not closure_mode:
+            # A7 vacuity probe: must FAIL in every function (a function where it verifies has a contradictory
+            # precondition or sits behind an inconsistent assumption)
+            eds.append((bo + 1, bo + 1, '\nproof { assert(false); } // VACUITY-PROBE ' + fnname + '\n', 'A7', ('ann', fnname, 'vacuity')))
         if spec['head']:
             ann(bo if closure_mode else bo + 1, spec['head'], 'ghost', 'head')
         if spec.get('tail') and not closure_mode:
